@@ -9,3 +9,14 @@ def as_bytes(value: StrOrBytes) -> bytes:
 
 def as_str(value: StrOrBytes) -> str:
     return value.decode("utf8") if isinstance(value, bytes) else value
+
+
+def hash_as_str(value: StrOrBytes) -> str:
+    """
+    Text form of a (possibly hostile) stored hash.
+
+    Hash strings are ASCII, so bytes that are not even valid UTF-8 cannot be a hash of ours:
+    they are decoded leniently (U+FFFD) so that identify() / verify() / needs_update()
+    can answer "not recognised" instead of raising UnicodeDecodeError.
+    """
+    return value.decode("utf8", errors="replace") if isinstance(value, bytes) else value
